@@ -289,11 +289,21 @@ BASE_UNITS = ["skactiveml.base:PoolQueryStrategy._validate_data",
 
 
 # --------------------------------------------------------------------------
-def sym_query(c, prop, strat, n, mode, b, feats=1):
+def encode_int(s, sym):
+    """the scenario's labels as an integer array with the sentinel -1 (instead of floats with NaN)"""
+    vals = np.array([(i % s.K) if s.lab[i] else -1 for i in range(s.n)], dtype=int)
+    s.y = arrays.SymNd(vals) if sym else vals
+
+
+def sym_query(c, prop, strat, n, mode, b, feats=1, enc="float"):
     a = ADAPTERS[strat]
     s = gen_scenario(c, n, mode, b, independent=a.independent, min_unlabeled=a.min_unlabeled, n_features=feats)
     env = Env(c)
-    qs = a.make(s.seed, sym=True)
+    if enc == "int":
+        encode_int(s, True)
+        qs = a.make(s.seed, sym=True, missing_label=-1)
+    else:
+        qs = a.make(s.seed, sym=True)
     xs0 = s.X.copy()
     y0 = s.y.copy()
     try:
@@ -311,16 +321,20 @@ def sym_query(c, prop, strat, n, mode, b, feats=1):
     return s, out
 
 
-def replay_query(inputs, label, prop, strat, n, mode, b, feats=1):
+def replay_query(inputs, label, prop, strat, n, mode, b, feats=1, enc="float"):
     a = ADAPTERS[strat]
     s = real_scenario(inputs, n, mode)
+    mkw = {}
+    if enc == "int":
+        encode_int(s, False)
+        mkw = dict(missing_label=-1)
     seeds = [s.seed] + ([] if inputs.get("__scripted__") else list(range(30)))
     tables = [inputs.get("__clf__")]
     if a.needs_clf:
         tables.append([])  # second attempt: uniform probabilities for every row (all utilities tie)
     for seed, table in [(sd, tb) for tb in tables for sd in seeds]:
         env = Env()
-        qs = a.make(seed, sym=False, inputs=inputs)
+        qs = a.make(seed, sym=False, inputs=inputs, **mkw)
         try:
             out = a.call(qs, s, b, False, table=table)
         except Exception as e:
@@ -336,13 +350,17 @@ def replay_query(inputs, label, prop, strat, n, mode, b, feats=1):
     return False, "not reproduced"
 
 
-def validate_query(inputs, prop, strat, n, mode, b, feats=1):
+def validate_query(inputs, prop, strat, n, mode, b, feats=1, enc="float"):
     """translator validation: the real query on the inputs of a proven symbolic path (the model's seed and stub-model
     table); returns the predicates the real run violates (expected: none)"""
     a = ADAPTERS[strat]
     s = real_scenario(inputs, n, mode)
     env = Env()
-    qs = a.make(s.seed, sym=False, inputs=inputs)
+    if enc == "int":
+        encode_int(s, False)
+        qs = a.make(s.seed, sym=False, inputs=inputs, missing_label=-1)
+    else:
+        qs = a.make(s.seed, sym=False, inputs=inputs)
     out = a.call(qs, s, b, False, table=inputs.get("__clf__"))
     check_result(env, prop, out, s, b, selection=a.selection)
     return sorted(env.violated)
@@ -846,6 +864,32 @@ class AEMCM(Adapter):
 
 
 register(AEMCM())
+
+
+# --------------------------------------------------------------------------
+# RegressionTreeBasedAL: only its cold-start branch (at most one labeled sample -> proportional random batch) is inside
+# the encodable fragment; the tree-based branches read sklearn's fitted tree structure
+# --------------------------------------------------------------------------
+class ARegressionTreeColdStart(Adapter):
+    name = "RegressionTreeBasedAL[cold start]"
+    loop = False           # (an AL loop leaves the cold-start branch after its first cycle)
+    selection = "proportional"
+    supports_rows = True
+    units = ["skactiveml.pool._regression_tree_based_al:RegressionTreeBasedAL.query"]
+
+    def make(self, seed, sym=True, inputs=None, **kw):
+        return pool().RegressionTreeBasedAL(random_state=seed, **kw)
+
+    def call(self, qs, s, b, sym, table=None, return_utilities=True):
+        from sklearn.tree import DecisionTreeRegressor
+        from skactiveml.regressor import SklearnRegressor
+        if sym and sum(1 for v in s.lab if v) >= 2:
+            raise core.PathAbort("RegressionTreeBasedAL beyond its cold-start branch (sklearn tree internals)")
+        reg = SklearnRegressor(DecisionTreeRegressor(random_state=0), missing_label=qs.missing_label)
+        return qs.query(s.X, s.y, reg, candidates=s.cand, batch_size=b, return_utilities=return_utilities)
+
+
+register(ARegressionTreeColdStart())
 
 
 # --------------------------------------------------------------------------
